@@ -13,7 +13,12 @@
    (and a simple condition estimate is moderate); nothing otherwise.
 4. Directed probes (separate processes): solve with no standards (zero-length VLA, D22), failing
    solves with measurement-error modelling on (leak, D21), failure after a success keeps the
-   previous calibration.
+   previous calibration, a frequency vector of length 0 (solve succeeds as coded).
+5. Order of effects of _vnacal_new_solve_internal: the TRL dispatch test (_vnacal_new_solve_is_trl, incl.
+   standards with unset S cells, D69), the write-back of the solved unknown parameters (per entry of
+   vn_unknown_parameter_list: vpmr_frequencies, gamma vector present, vectors bitwise unchanged) and
+   injected allocation failures (allocwrap: the first request, a random request before the write-back,
+   each calloc of the write-back) are compared with the model after every solve.
 """
 import itertools
 import os
@@ -199,6 +204,10 @@ def emit(s):
             cl.append("solve")
             ml.append("solve")
             recs.append({"op": "solve"})
+        elif op[0] == "solvefail":  # (N, "early" | "wb", j)
+            cl.append("solvefail %d" % op[1])
+            ml.append("solve 1 early" if op[2] == "early" else "solve 1 wb %d" % op[3])
+            recs.append({"op": "solvefail", "kind": op[2], "j": op[3], "n": op[1]})
         elif op[0] == "terms":
             cl.append("terms")
             recs.append({"op": "terms", "model": False})
@@ -297,6 +306,7 @@ def evaluate(ctx, s, recs, cout, mout, stats, use_model):
     orc = OracleState(s, exact)
     had_cal = False
     last_counts = None
+    last_solve_rc = None        # rc of the previous solve if nothing was added / changed since
     final = {}
     unk_per_sys = sc.doc_unknowns_per_system(s.ty, s.r, s.c)
     for i, rec in enumerate(recs):
@@ -321,6 +331,8 @@ def evaluate(ctx, s, recs, cout, mout, stats, use_model):
         if op in ("par", "unk", "cor", "merr"):
             if cd["_tag"] == "E" and md is not None and md.get("rc") != cd.get("rc"):
                 bad("tie", "set_m_error outcome differs")
+            if op == "merr":
+                last_solve_rc = None
             continue
         if op == "add":
             if md is not None:
@@ -332,6 +344,7 @@ def evaluate(ctx, s, recs, cout, mout, stats, use_model):
             if any(a > b for a, b in zip(last_counts, counts)):
                 bad("monotone", "an equation count decreased")
             last_counts = counts
+            last_solve_rc = None
             if cd.get("calsame") != "1":
                 bad("state", "add changed the calibration")
             if cd["rc"] == "0":
@@ -358,6 +371,18 @@ def evaluate(ctx, s, recs, cout, mout, stats, use_model):
                 deficient = (md["deficient"] == "1") if md is not None else (tot + corr < unk_per_sys * len(mcounts) + p_len)
             if md is not None and md.get("deficient") is not None and (md["deficient"] == "1") != deficient and p_len == 0:
                 bad("tie", "model's deficiency decision differs from its own counts")
+            if p_len > 0 and cd.get("trl") == "0":
+                # the count test of the iterative solver, recomputed from the library's own (white-box) counters:
+                # measurement equations + correlation equations against error terms + unknown parameters
+                c_tot, c_corr, c_unk = int(cd["tot"]), int(cd["corr"]), int(cd["unk"])
+                x_len = unk_per_sys * len(counts)
+                formula = c_tot + c_corr < x_len + c_unk
+                if formula != deficient:
+                    bad("tie", "count decision with unknown parameters: model %s, equations %d + correlated %d vs terms %d + parameters %d"
+                        % (deficient, c_tot, c_corr, x_len, c_unk))
+                if c_corr > 0 and c_unk > c_corr and c_tot + c_corr == x_len + c_unk - 1 and c_tot > x_len:
+                    stats["one_short_with_correlated"] += 1
+                    ctx.count(("one-short-correlated", s.ty, s.r, s.c, c_tot, c_unk, c_corr))
             ok = cd["rc"] == "0"
             stats["solves"] += 1
             final = {"counts": counts, "deficient": deficient, "ok": ok}
@@ -380,12 +405,29 @@ def evaluate(ctx, s, recs, cout, mout, stats, use_model):
                 if had_cal and p_len == 0 and cd["live"] != "0":     # (solved unknown parameters are stored in the vnacal_t)
                     bad("leak", "successful solve replacing a calibration changed live blocks by %s" % cd["live"])
                 had_cal = True
+            # the verdict does not depend on what earlier solves left behind (calibration present or moved to
+            # the vnacal_t, solved parameter values): same standards, same verdict
+            if last_solve_rc is not None and last_solve_rc != cd["rc"]:
+                bad("state", "two solves of the same standards gave different verdicts (%s then %s)" % (last_solve_rc, cd["rc"]))
+            last_solve_rc = cd["rc"]
+            if not ok and "0" in cd.get("pvsame", ""):
+                bad("state", "failed solve changed the stored value of an unknown parameter (pvsame=%s)" % cd["pvsame"])
+            if ok and (":0;" in cd.get("pv", "") or any(x.split(":")[1] != str(s.F) for x in cd.get("pv", "").split(";") if x)):
+                bad("state", "successful solve left an unknown parameter without solution / on another grid: %s" % cd["pv"])
             if md is not None:
                 # the model is given the numeric verdict of the C run as its oracle; everything else must agree
-                for key in ("rc", "errno", "cal", "calsame"):
+                for key in ("rc", "errno", "cal", "calsame", "trl", "pv"):
                     if md.get(key) != cd.get(key):
                         bad("tie", "solve: field %s differs (model %s, C %s)" % (key, md.get(key), cd.get(key)))
                         break
+                if any(a == "1" and b != "1" for a, b in zip(md.get("pvsame", ""), cd.get("pvsame", ""))):
+                    bad("tie", "solve: the model keeps a parameter value the library changed (model %s, C %s)"
+                        % (md.get("pvsame"), cd.get("pvsame")))
+                if cd.get("trl") == "1":
+                    stats["trl_dispatched"] += 1
+                    ctx.count(("trl", s.ty, s.sid))
+                if ok and cd.get("pv"):
+                    stats["writebacks"] += 1
                 ctx.traces_validated += 1
             # ---- required outcomes
             verdict = "unconstrained"
@@ -398,8 +440,8 @@ def evaluate(ctx, s, recs, cout, mout, stats, use_model):
                 verdict = "edom"
                 stats["edom_required"] += 1
                 if ok:
-                    bad("edom", "solve succeeded with fewer equations than unknowns (counts %s, unknowns %d + %d)"
-                        % (mcounts, unk_per_sys, p_len))
+                    bad("edom", "solve succeeded with fewer equations than unknowns (counts %s + %d correlation equations, "
+                        "%d error terms per system + %d unknown parameters)" % (mcounts, corr, unk_per_sys, p_len))
                 ctx.count(("edom", s.ty, s.r, s.c, tuple(mcounts)))
             elif p_len == 0 and not orc.unmodelled and not s.merr:
                 fr = orc.full_rank_modp()
@@ -436,6 +478,40 @@ def evaluate(ctx, s, recs, cout, mout, stats, use_model):
             rec["verdict"] = verdict
             s.last_verdict = verdict
             s.last_ok = ok
+            continue
+        if op == "solvefail":
+            # an injected allocation failure inside vnacal_new_solve
+            kind = rec["kind"]
+            stats["alloc_faults"] += 1
+            ctx.count(("solvefail", s.ty, s.r, s.c, kind, rec["j"]))
+            if cd.get("failed") != "1":
+                bad("tie", "the injected allocation failure (request %d) did not happen: allocs=%s" % (rec["n"], cd.get("allocs")))
+                continue
+            if cd["rc"] != "-1" or cd["errno"] != "ENOMEM":
+                bad("errno", "solve with a failed allocation returned rc=%s errno=%s" % (cd["rc"], cd["errno"]))
+            if cd["stsame"] != "1":
+                bad("state", "solve with a failed allocation changed measurements / equations / counters")
+            if cd["calsame"] != "1" or (cd["cal"] == "1") != had_cal:
+                bad("state", "solve with a failed allocation touched the previous calibration")
+            if cd["cb"] != "1":
+                bad("errno", "solve with a failed allocation invoked the error callback %s times" % cd["cb"])
+            if kind == "early":
+                if "0" in cd.get("pvsame", ""):
+                    bad("state", "allocation failure before the write-back changed a parameter value (pvsame=%s)" % cd["pvsame"])
+                if cd["live"] != "0":
+                    bad("leak", "solve with a failed allocation changed the number of live blocks by %s" % cd["live"])
+            else:
+                stats["writeback_faults"] += 1
+            if md is not None:
+                for key in ("rc", "errno", "cal", "calsame", "trl", "pv"):
+                    if md.get(key) != cd.get(key):
+                        bad("tie", "solvefail (%s %d): field %s differs (model %s, C %s)" % (kind, rec["j"], key, md.get(key), cd.get(key)))
+                        break
+                if any(a == "1" and b != "1" for a, b in zip(md.get("pvsame", ""), cd.get("pvsame", ""))):
+                    bad("tie", "solvefail: the model keeps a parameter value the library changed (model %s, C %s)"
+                        % (md.get("pvsame"), cd.get("pvsame")))
+                ctx.traces_validated += 1
+            last_solve_rc = None
             continue
         if op == "terms":
             if getattr(s, "last_verdict", None) == "solve" and s.last_ok:
@@ -616,6 +692,226 @@ def gen_special(ctx):
     return out
 
 
+def unknown_reflect(s, port, true, guess, name):
+    """A reflect whose gamma is an unknown parameter (true value `true`, initial guess `guess`)."""
+    g = s.new_slot(guess)
+    u = s.new_slot(true, kind="unknown", guess=g)
+    st = sc.Standard("r1", [port], [[(u, true)]], name)
+    st.unknown = True
+    st.term = {i: QI(Fraction(1, 10), Fraction(-1, 5)) for i in range(s.P)}
+    return st, u
+
+
+def gen_trl(ctx):
+    """The TRL dispatch test (_vnacal_new_solve_is_trl / classify_standard): 2x2, through + reflect (one
+    unknown on both ports) + line (one unknown), the reflect given as a line with explicit zeros, as a
+    double reflect (zero-filled off-diagonal cells) or as a single reflect (unset cells, D69: not TRL),
+    in several orders, with a fourth standard, with error modelling, and on types that have no TRL path."""
+    import random
+    rng = ctx.rng
+    out = []
+    sid = 400000
+    quick = ctx.tier == "quick"
+    for ty in sc.TYPES:
+        if not sc.dims_ok(ty, 2, 2):
+            continue
+        for variant in ("ln", "r2", "r1", "r1b", "four", "merr", "dupT"):
+            for rep in range(1 if quick else 3):
+                s = Scenario(ty, 2, 2, 1 + (rep + len(variant)) % 2, random.Random(rng.getrandbits(48)), sid)
+                sid += 1
+                s.merr = variant == "merr"
+                s.exact = False
+                s.group = None
+                term = {i: QI(Fraction(1, 10), Fraction(-1, 5)) for i in range(2)}
+                rv, lv = QI(Fraction(-9, 10), Fraction(1, 10)), QI(Fraction(1, 2), Fraction(-1, 3))
+                gr = s.new_slot(QI(Fraction(-19, 20), Fraction(1, 20)))
+                ur = s.new_slot(rv, kind="unknown", guess=gr)
+                gl = s.new_slot(QI(Fraction(11, 20), Fraction(-3, 10)))
+                ul = s.new_slot(lv, kind="unknown", guess=gl)
+                z, one = (0, ZERO), (1, ONE)
+                T = sc.Standard("th", [1, 2], [[z, one], [one, z]], "T")
+                if variant == "r2":
+                    R = [sc.Standard("r2", [1, 2], [[(ur, rv), z], [z, (ur, rv)]], "R/r2")]
+                elif variant == "r1":
+                    R = [sc.Standard("r1", [2], [[(ur, rv)]], "R/r1@2")]
+                elif variant == "r1b":
+                    R = [sc.Standard("r1", [1], [[(ur, rv)]], "R/r1@1")]
+                else:
+                    R = [sc.Standard("ln", [1, 2], [[(ur, rv), z], [z, (ur, rv)]], "R/ln")]
+                L = sc.Standard("ln", [1, 2], [[z, (ul, lv)], [(ul, lv), z]], "L")
+                stds = [T] + R + [L]
+                if variant == "dupT":
+                    stds = [T, sc.Standard("th", [2, 1], [[z, one], [one, z]], "T2"), L]
+                if variant == "four":
+                    stds.append(sc.Standard("r2", [1, 2], [[(2, QI(-1)), z], [z, (1, ONE)]], "so"))
+                for st in stds:
+                    st.unknown = True
+                    st.term = term
+                rng.shuffle(stds)
+                if variant == "merr":
+                    s.ops.append(("merr", "1e-6"))
+                for st in stds:
+                    s.ops.append(("add", st))
+                    s.ops.append(("solve",))
+                s.ops.append(("solve",))
+                out.append(s)
+    return out
+
+
+def gen_correlated(ctx):
+    """Auto-calibrations with plain unknown AND correlated parameters, solved after every add, built so that
+    the history passes through states that are exactly one equation short with a correlated parameter present
+    and more equations than error terms (equations + correlated == error terms + unknown parameters - 1): the
+    count test of _vnacal_new_solve_auto credits a correlated parameter once (its correlation equation), and the
+    solve must fail with EDOM there.  1x1, every type: short / open / match + reflects U1, U2 (unknown) and C
+    (correlated with U1) in random orders; 2x2: through + double reflect (U1, C) + double reflect (U2, short) +
+    match@1 + open@2 (+ permutations)."""
+    import random
+    rng = ctx.rng
+    quick = ctx.tier == "quick"
+    out = []
+    sid = 600000
+
+    def params(s):
+        gv, g2v = QI(Fraction(-4, 5), Fraction(3, 10)), QI(Fraction(7, 10), Fraction(1, 5))
+        ga = s.new_slot(QI(Fraction(-39, 50), Fraction(29, 100)))
+        u1 = s.new_slot(gv, kind="unknown", guess=ga)
+        gb = s.new_slot(QI(Fraction(69, 100), Fraction(21, 100)))
+        u2 = s.new_slot(g2v, kind="unknown", guess=gb)
+        c = len(s.slots)
+        s.slots[c] = gv
+        s.slot_kind[c] = "unknown"
+        s.ops.append(("cor", c, u1, "0.05"))
+        return (u1, gv), (u2, g2v), (c, gv)
+
+    def mark(s, stds):
+        term = {i: QI(Fraction(1, 10), Fraction(-1, 5)) for i in range(s.P)}
+        for st in stds:
+            st.unknown = True
+            st.term = term
+            st.abbrev_rows = st.abbrev_cols = False
+
+    for ty in sc.TYPES:
+        for rep in range(2 if quick else 8):
+            s = Scenario(ty, 1, 1, 1 + rep % 2, random.Random(rng.getrandbits(48)), sid)
+            sid += 1
+            s.merr = False
+            s.exact = False
+            s.group = None
+            s.correlated = True
+            U1, U2, C = params(s)
+            stds = [sc.Standard("r1", [1], [[(2, QI(-1))]], "short"), sc.Standard("r1", [1], [[(1, ONE)]], "open"),
+                    sc.Standard("r1", [1], [[(0, ZERO)]], "match"), sc.Standard("r1", [1], [[U1]], "U1"),
+                    sc.Standard("r1", [1], [[U2]], "U2"), sc.Standard("r1", [1], [[C]], "C")]
+            mark(s, stds)
+            if rep == 0:
+                order = [0, 3, 4, 5, 1, 2]      # short, U1, U2, C (one short here: 4 + 1 < 3 + 3), open, match
+            else:
+                order = list(range(6))
+                rng.shuffle(order)
+            for i in order:
+                s.ops.append(("add", stds[i]))
+                s.ops.append(("solve",))
+            out.append(s)
+        if not sc.dims_ok(ty, 2, 2):
+            continue
+        for rep in range(1 if quick else 4):
+            s = Scenario(ty, 2, 2, 1 + rep % 2, random.Random(rng.getrandbits(48)), sid)
+            sid += 1
+            s.merr = False
+            s.exact = False
+            s.group = None
+            s.correlated = True
+            U1, U2, C = params(s)
+            z, one = (0, ZERO), (1, ONE)
+            stds = [sc.Standard("th", [1, 2], [[z, one], [one, z]], "T"),
+                    sc.Standard("r2", [1, 2], [[U1, z], [z, C]], "U1/C"),
+                    sc.Standard("r2", [1, 2], [[U2, z], [z, (2, QI(-1))]], "U2/short"),
+                    sc.Standard("r1", [1], [[(0, ZERO)]], "match@1"), sc.Standard("r1", [2], [[(1, ONE)]], "open@2"),
+                    sc.Standard("r1", [2], [[(0, ZERO)]], "match@2"), sc.Standard("r1", [1], [[(2, QI(-1))]], "short@1")]
+            mark(s, stds)
+            order = list(range(len(stds)))
+            if rep > 0:
+                rng.shuffle(order)
+            for i in order:
+                s.ops.append(("add", stds[i]))
+                s.ops.append(("solve",))
+            out.append(s)
+    return out
+
+
+def gen_writeback(ctx, exe):
+    """Histories with two or three unknown parameters whose solve succeeds, and the same histories with one
+    allocation request of that solve failing: the first one, a random one before the parameter write-back,
+    and each calloc of the write-back (request K - w + j + 1 when the unfaulted call makes K requests, the
+    last w of them in the write-back).  Pass 1 (here) learns K and w from the unfaulted run."""
+    import random
+    rng = ctx.rng
+    quick = ctx.tier == "quick"
+    out = []
+    sid = 500000
+    tried = solved = 0
+
+    def build(ty, r, c, F, nunk, seed, tail):
+        prng = random.Random(seed)
+        s = Scenario(ty, r, c, F, prng, 0)
+        pool = make_pool(s, prng)
+        s.merr = False
+        s.exact = False
+        s.group = None
+        stds = []
+        for st in pool:
+            st.abbrev_rows = st.abbrev_cols = False
+            if not st.name.startswith("gamma@"):
+                stds.append(st)
+        for i in range(nunk):
+            true = QI(Fraction(3 + i, 10), Fraction(2 - i, 5))
+            guess = QI(Fraction(31 + 10 * i, 100), Fraction(39 - 20 * i, 100))
+            st, u = unknown_reflect(s, 1 + i % s.P, true, guess, "unk%d@%d" % (i, 1 + i % s.P))
+            stds.append(st)
+        for st in stds:
+            s.ops.append(("add", st))
+        s.ops += tail
+        return s
+
+    for ty in sc.TYPES:
+        for (r, c) in dims_for(ty, 2):
+            if quick and (r, c) not in ((1, 1), (2, 2)):
+                continue
+            for nunk in ((2,) if quick and (r, c) == (2, 2) else (2, 3)):
+                F = 1 + (nunk + r) % 2
+                seed = rng.getrandbits(48)
+                s0 = build(ty, r, c, F, nunk, seed, [("solve",)])
+                cl, ml, recs = emit(s0)
+                rc, o, err = run_harness(ctx, exe, cl, timeout=120)
+                tried += 1
+                sl = [parse_kv(x) for x in o if x.startswith("S ")]
+                if rc != 0 or len(sl) != 1 or sl[0]["rc"] != "0":
+                    continue
+                solved += 1
+                K, w = int(sl[0]["allocs"]), int(sl[0]["wbc"])
+                if w != nunk or K <= w:
+                    ctx.obligation("tie:write-back allocation count", False, "allocs=%d wbc=%d for %d unknown parameters" % (K, w, nunk))
+                    continue
+                faults = [("early", 1, 0), ("early", rng.randint(2, K - w), 0)]
+                faults += [("wb", K - w + j + 1, j) for j in range(w)]
+                if quick and len(faults) > 4:
+                    faults = faults[:1] + rng.sample(faults[1:2] + faults[2:], 3)
+                for kind, n, j in faults:
+                    tail = [("solvefail", n, kind, j)]
+                    if kind == "wb" and j >= 1:
+                        # the retry finds the first j parameters on the right grid (no calloc for them): its first
+                        # write-back calloc is the one of parameter j, request (K - w) + 1 of that call
+                        tail.append(("solvefail", K - w + 1, "wb", 0))
+                    s = build(ty, r, c, F, nunk, seed, tail + [("solve",), ("solve",)])
+                    s.sid = sid
+                    sid += 1
+                    out.append(s)
+    ctx.extra["writeback_base_histories"] = tried
+    ctx.extra["writeback_base_solved"] = solved
+    return out
+
+
 def gen_argcheck(ctx, drv):
     """Random, possibly invalid add calls (dimensions, port maps, rectangular S for T16/U16).  The model
     is asked first; calls for which it predicts undefined behaviour of the C code (array overruns,
@@ -732,6 +1028,26 @@ def probes(ctx, exe):
                               "solve with no standards must fail with EDOM and change nothing: " + out[1][:200],
                               {"script": lines, "output": out[:4]})
                 return False
+    # 1b. a frequency vector of length 0: the frequency loop does not run, the solve succeeds as coded
+    #     (Properties_C20.zero_frequencies_solve_succeeds_as_coded), with and without standards / unknown parameters
+    for ty in sc.TYPES:
+        lines = ["new %s 1 1 0" % ty, "par 3 0.3 0.1", "unk 4 3", "solve", "add r1 1 1 2 1 -0x1.2p+0 0x0p+0", "solve",
+                 "add r1 1 1 4 1 0x1.2p-2 0x0p+0", "solve", "end"]
+        rc, out, err = run_harness(ctx, exe, lines, timeout=60)
+        ctx.count(("probe-zero-frequencies", ty))
+        sig = vplib.asan_signature(err)
+        if rc != 0 or sig is not None:
+            sig = sig or {"kind": "fault", "error": "exit %d" % rc, "function": None}
+            ctx.violation(sig, "vnacal_new_solve with a frequency vector of length 0 (%s): %s" % (ty, sig),
+                          {"script": lines, "stderr": err[-2000:]})
+            return False
+        sl = [parse_kv(x) for x in out if x.startswith("S ")]
+        if len(sl) != 3 or any(d["rc"] != "0" or d["cal"] != "1" or d["stsame"] != "1" for d in sl) or sl[2].get("pv") != "4:0:1;":
+            ctx.violation({"kind": "disagreement", "op": "vnacal_new_solve", "class": "zero frequencies"},
+                          "model: a solve over a frequency vector of length 0 succeeds (no frequency, no test) and stores an "
+                          "empty solution for the unknown parameter; library (%s): %s" % (ty, [x[:120] for x in out if x.startswith("S ")]),
+                          {"script": lines, "output": out[:10]})
+            return False
     # 2. failing solves with measurement error modelling (leak on the error paths, D21)
     for ty in sc.TYPES:
         r, c = (1, 1)
@@ -832,7 +1148,8 @@ def run(ctx):
         "Coq 8.16.1 kernel (coqc); vm_compute in the examples; no native_compute",
         "axioms: none (Print Assumptions: Closed under the global context for every theorem of Properties_C20.v)",
         "hand-written model coq/SolveCount/CountModel.v, tied on every run by exact white-box comparison with the library "
-        "(equation lists per system, counters, solve decision, calibration swap) on generated add/solve histories",
+        "(equation lists per system, counters, TRL dispatch, solve decision, calibration swap, parameter write-back, "
+        "injected allocation failures) on generated add/solve histories",
         "the numeric part of a solve (LU/QR rank decisions, convergence, p-value) is an uninterpreted oracle of the model; "
         "determining_set_solves is not a Coq theorem: it is decided per case by the exact-rank oracle lib/solvecount.py",
         "extraction (ExtrOcamlBasic only) + ocaml/drv_solvecount.ml (parsing/printing glue)",
@@ -840,7 +1157,8 @@ def run(ctx):
     ]
     ctx.assumptions = ["exact field arithmetic stands for binary64 arithmetic; required outcomes on the C side use 1e-8 relative "
                        "tolerance and skip cases whose condition estimate exceeds 1e5",
-                       "allocation failure is outside the model (C12)"]
+                       "allocation failure is modelled for vnacal_new_solve only (before the write-back: nothing changes; inside "
+                       "the write-back: parameters partially written, calibration kept); everywhere else it is C12's"]
     ctx.rule = ("one evaluation = one vnacal_new_solve call inside an add/solve history (or one directed probe); distinct "
                 "non-trivial = (required EDOM: type, dims, per-system counts) and (required success: scenario, position)")
 
@@ -873,9 +1191,10 @@ def run(ctx):
     # ------------------------------------------------------------------ 4. enumeration
     stats = {k: 0 for k in ("solves", "edom_required", "solve_required", "skipped_ill_conditioned", "leakage_undetermined",
                             "rank_deficient", "rank_deficient_but_solved", "exact_rank_checked", "modp_unlucky",
-                            "terms_checked", "dut_checked")}
+                            "terms_checked", "dut_checked", "trl_dispatched", "writebacks", "alloc_faults", "writeback_faults",
+                            "one_short_with_correlated")}
     stats.update({"worst_cond": 0.0, "worst_term_error": 0.0, "worst_dut_error": 0.0})
-    scen = gen_scenarios(ctx) + gen_special(ctx)
+    scen = gen_scenarios(ctx) + gen_special(ctx) + gen_trl(ctx) + gen_correlated(ctx) + gen_writeback(ctx, exe)
     if drv is not None:
         scen += gen_argcheck(ctx, drv)
     ctx.log("%d scenarios" % len(scen))
@@ -911,6 +1230,9 @@ def run(ctx):
             if ln == "solve":
                 ok = si < len(solves) and " rc=0 " in solves[si]
                 feed.append("solve %d" % (1 if ok else 0))
+                si += 1
+            elif ln.startswith("solve "):       # a solve with an injected allocation failure (verdict fixed by the script)
+                feed.append(ln)
                 si += 1
             else:
                 feed.append(ln)
@@ -966,7 +1288,7 @@ def run(ctx):
     ctx.extra.update(stats)
     ctx.extra["scenarios"] = len(scen)
     for s, p, script in first_problems[:4]:
-        sig = {"kind": "disagreement", "op": "vnacal_new_solve" if p["op"] in ("solve", "terms", "apply") else "vnacal_new_add",
+        sig = {"kind": "disagreement", "op": "vnacal_new_solve" if p["op"] in ("solve", "solvefail", "terms", "apply") else "vnacal_new_add",
                "class": p["kind"]}
         ctx.violation(sig, "%s %dx%d, operation %d (%s): %s" % (s.ty, s.r, s.c, p["index"], p["op"], p["what"]),
                       {"script": script[:p["index"] + 2], "c_line": p["c"], "model_line": p["model"], "problem": p})
@@ -976,6 +1298,13 @@ def run(ctx):
                        ctx.extra.get("argcheck_rectangular_non16", 0) >= 10 and
                        "argcheck_rectangular_not_refused_by_model" not in ctx.extra,
                        "%d such calls compared" % ctx.extra.get("argcheck_rectangular_non16", 0))
+    ctx.obligation("tie:coverage (TRL dispatch, parameter write-back and injected allocation failures exercised)",
+                   stats["trl_dispatched"] >= 8 and stats["writebacks"] >= 20 and stats["writeback_faults"] >= 8
+                   and stats["alloc_faults"] >= 16,
+                   "trl %d, write-backs %d, allocation faults %d (in the write-back %d)"
+                   % (stats["trl_dispatched"], stats["writebacks"], stats["alloc_faults"], stats["writeback_faults"]))
+    ctx.obligation("tie:coverage (auto-calibrations with unknown + correlated parameters exactly one equation short)",
+                   stats["one_short_with_correlated"] >= 12, "%d such solves (EDOM required)" % stats["one_short_with_correlated"])
     ctx.obligation("tie:coverage (required EDOM and required success both exercised)",
                    stats["edom_required"] > 50 and stats["solve_required"] > 50 and stats["dut_checked"] > 10,
                    "edom %d, success %d, dut %d" % (stats["edom_required"], stats["solve_required"], stats["dut_checked"]))
